@@ -6,6 +6,8 @@ pub mod c02;
 pub mod c03;
 pub mod c04;
 pub mod rules;
+pub mod c05;
+pub mod c06;
 pub mod c07;
 pub mod c08;
 pub mod c09;
@@ -22,7 +24,7 @@ pub mod c19;
 pub mod c20;
 
 pub fn ids() -> Vec<&'static str> {
-    vec!["C01", "C02", "C03", "C04", "C07", "C08", "C09", "C10", "C11", "C12", "C13", "C14", "C15", "C16", "C17", "C18", "C19", "C20"]
+    vec!["C01", "C02", "C03", "C04", "C05", "C06", "C07", "C08", "C09", "C10", "C11", "C12", "C13", "C14", "C15", "C16", "C17", "C18", "C19", "C20"]
 }
 
 pub fn get(id: &str, ctx: &Ctx) -> Option<PropertyDef> {
@@ -31,6 +33,8 @@ pub fn get(id: &str, ctx: &Ctx) -> Option<PropertyDef> {
         "C02" => c02::def(ctx),
         "C03" => c03::def(ctx),
         "C04" => c04::def(ctx),
+        "C05" => c05::def(ctx),
+        "C06" => c06::def(ctx),
         "C07" => c07::def(ctx),
         "C08" => c08::def(ctx),
         "C09" => c09::def(ctx),
